@@ -265,7 +265,7 @@ func genRequest(r *hv.Rng, odd *[]string) string {
 	}
 	sb.WriteString(m + " " + tg + " " + v + eol(r))
 	if r.Chance(1, 50) {
-		sb.WriteString(" ") // whitespace before the first header field
+		sb.WriteString(r.Pick([]string{" ", "\t", "  "})) // whitespace before the first header field
 		*odd = append(*odd, "leadws")
 	}
 	var lines []string
